@@ -1,4 +1,3 @@
-NOT_YET = {}
 CLAIMED["C01"] = dict(
     technique="Lean 4 theorems (walk/encode round trip, offset lookup, FourCC totality by decide over all bytes, map round trips, locator minimality) about a hand-written model of riff.py/riff_chunk.py/imap.py/mmap.py, tied by a sampled model-vs-implementation correspondence and a property search on the real code",
     text="Unbounded theorems about the Lean model of the chunk walk, offset lookup, FourCC sanitiser, imap/mmap readers and the projector locator; the model is compared with the real functions on generated movies every run and the property is evaluated on the implementation's own output.",
